@@ -7,6 +7,7 @@ package main
 
 import (
 	"fmt"
+	"os"
 	"strings"
 	"time"
 
@@ -222,6 +223,16 @@ func styleDomain() (attrs []vaxis.Style, cols []vaxis.Style, uls []vaxis.Style) 
 // of a wide character): it is encoded like any other cell but prints nothing, so it does not come back
 var emptyAt = -1
 
+func legacyTag(producer string) string {
+	if legacyMode {
+		return "|legacy-sgr|from=" + producer
+	}
+	return ""
+}
+
+// legacyMode: this worker runs with VAXIS_FORCE_LEGACY_SGR set (violations carry the tag)
+var legacyMode bool
+
 func checkSeq(styles []vaxis.Style, withRenderer bool) {
 	all := make([]vaxis.Cell, len(styles))
 	var cells []vaxis.Cell // the cells that print something
@@ -252,6 +263,9 @@ func checkSeq(styles []vaxis.Style, withRenderer bool) {
 	for _, p := range prods {
 		r.Count("encodings", 1)
 		bad := func(clause, why string) {
+			if legacyMode {
+				clause += "|legacy-sgr"
+			}
 			r.Violation("C18|"+clause+"|"+p.name, cost, detail{Part: p.name, Cells: cellsDesc, Encoded: fmt.Sprintf("%q", p.s), Why: why})
 		}
 		ref, pen := viaRefterm(p.s, len(cells))
@@ -294,7 +308,7 @@ func checkSeq(styles []vaxis.Style, withRenderer bool) {
 				continue
 			}
 			if len(c.styles) < len(cells) {
-				r.Violation("C18|round-trip|"+c.name+"|count", cost, detail{Part: p.name + " -> " + c.name, Cells: cellsDesc, Encoded: fmt.Sprintf("%q", p.s), Why: fmt.Sprintf("%d cells back for %d encoded", len(c.styles), len(cells))})
+				r.Violation("C18|round-trip|"+c.name+"|count"+legacyTag(p.name), cost, detail{Part: p.name + " -> " + c.name, Cells: cellsDesc, Encoded: fmt.Sprintf("%q", p.s), Why: fmt.Sprintf("%d cells back for %d encoded", len(c.styles), len(cells))})
 				continue
 			}
 			for i := range cells {
@@ -309,7 +323,7 @@ func checkSeq(styles []vaxis.Style, withRenderer bool) {
 					case a.UnderlineColor != b.UnderlineColor:
 						field = "underline-colour"
 					}
-					r.Violation("C18|round-trip|"+c.name+"|"+field, cost, detail{Part: p.name + " -> " + c.name, Cells: cellsDesc, Encoded: fmt.Sprintf("%q", p.s),
+					r.Violation("C18|round-trip|"+c.name+"|"+field+legacyTag(p.name), cost, detail{Part: p.name + " -> " + c.name, Cells: cellsDesc, Encoded: fmt.Sprintf("%q", p.s),
 						Why: fmt.Sprintf("cell %d comes back as %s", i, styleStr(c.styles[i]))})
 					break
 				}
@@ -488,6 +502,12 @@ func main() {
 	if idx, n, arg, ok := r.Worker(); ok {
 		r.Watchdog(60 * time.Second)
 		var err error
+		if arg == "legacy" {
+			// the documented switch that makes the library write 38;5;n / 38;2;r;g;b (semicolons) for terminals
+			// that do not read the colon forms; it is read once, when a Vaxis starts
+			os.Setenv("VAXIS_FORCE_LEGACY_SGR", "1")
+			legacyMode = true
+		}
 		host, err = session.Open(allCaps(), 8, 2, vaxis.Options{})
 		if err != nil {
 			r.Fault("host: %v", err)
@@ -496,6 +516,14 @@ func main() {
 		k := 0
 		mine := func() bool { k++; return k%n == idx }
 		switch arg {
+		case "legacy":
+			for _, a := range cols {
+				for _, b := range cols {
+					if mine() {
+						checkSeq([]vaxis.Style{a, b}, true)
+					}
+				}
+			}
 		case "pairs":
 			for _, dom := range [][]vaxis.Style{attrs, cols, uls} {
 				for _, a := range dom {
@@ -619,6 +647,7 @@ func main() {
 	}
 	r.Spawn(16, "pairs", 0)
 	r.Spawn(16, "params", 0)
+	r.Spawn(16, "legacy", 0)
 	n := r.Get("encodings") + r.Get("param_lists")
 	r.Finish(explore.Coverage{
 		States: -1, Transitions: n, Traces: n, Evaluations: n,
